@@ -475,7 +475,17 @@ class Gen:
         SI = self.d.SI
         r = self.rng
         vs = sorted(self.vars)
-        shape = r.below(3)
+        shape = r.below(4)
+        if shape == 3:
+            # constants defined as a tuple, with and without declared components
+            a, b = self.fresh("c"), self.fresh("c")
+            (e1, v1), (e2, v2) = self.bexpr(), self.bexpr()
+            self.consts[a], self.consts[b] = v1, v2
+            if r.chance(1, 2):
+                self.add(Form("tuple-def", "(%s: %s, %s: %s) == (%s, %s);" % (a, SI, b, SI, e1, e2)))
+            else:
+                self.add(Form("tuple-def", "(%s, %s) == (%s, %s);" % (a, b, e1, e2)))
+            return self.g_out()
         if shape == 0 and len(vs) >= 2:
             a, b = r.sample(vs, 2)
             k = r.range(1, 9)
